@@ -55,6 +55,15 @@ void arbitrary_case(const std::vector<uint8_t>& b, bool saved, bool viaFile, Sta
 	if ((r.ok && !r.map.tiles.empty()) || (!r.ok && pastHeader)) st.nt(fnv1a(b.data(), b.size(), saved));
 }
 
+// bounds the work of one case (a count, not a clock): maps with hundreds of groups have thousands of field-adjacent cuts, each a parse of up
+// to a megabyte; keep an evenly spaced subset, always with the first 200 and the last 40
+void thin(std::vector<size_t>& cuts, size_t limit) {
+	if (cuts.size() <= limit) return;
+	std::vector<size_t> k; size_t body = cuts.size() - 240, want = limit - 240;
+	for (size_t i = 0; i < cuts.size(); ++i) if (i < 200 || i + 40 >= cuts.size() || ((i - 200) * want / body != (i - 199) * want / body)) k.push_back(cuts[i]);
+	cuts.swap(k);
+}
+
 // a valid map: accepted, fields equal; every proper prefix of the consumed part rejected
 void valid_case(const LMap& m, bool viaFile, Stats& st, bool allPrefixes, unsigned prefixStride) {
 	refmap::Layout L; std::vector<uint8_t> in = refmap::encode(m, &L);
@@ -65,6 +74,7 @@ void valid_case(const LMap& m, bool viaFile, Stats& st, bool allPrefixes, unsign
 	std::vector<size_t> cuts;
 	if (allPrefixes) for (size_t n = 0; n < L.end; ++n) cuts.push_back(n);
 	else { for (size_t n = 0; n < L.end; n += prefixStride) cuts.push_back(n); for (size_t f : L.fields) for (int d = -8; d <= 8; ++d) if (int64_t(f) + d >= 0 && f + d < L.end) cuts.push_back(f + d); if (L.end) cuts.push_back(L.end - 1); }
+	thin(cuts, allPrefixes ? size_t(-1) : 700);
 	for (size_t n : cuts) {
 		std::vector<uint8_t> p(in.begin(), in.begin() + n);
 		Res q = read_bytes(p, false, false);
@@ -105,6 +115,7 @@ void saved_equivalence(const LMap& m0, const refmap::SaveExtra& x, bool viaFile,
 		std::vector<size_t> cuts;
 		if (prefixMode == 2) for (size_t n = 0; n < consumed; ++n) cuts.push_back(n);
 		else { for (size_t n = 0; n < consumed; n += 97) cuts.push_back(n); for (size_t f : L.fields) for (int d = -8; d <= 8; ++d) if (f + d < consumed) cuts.push_back(f + d); cuts.push_back(consumed - 1); cuts.push_back(refmap::SaveHeaderSkip); cuts.push_back(refmap::SaveHeaderSkip - 1); }
+		thin(cuts, prefixMode == 2 ? size_t(-1) : 700);
 		uint8_t* heap = static_cast<uint8_t*>(malloc(sv.size()));
 		struct F { uint8_t* p; ~F() { free(p); } } g{heap};
 		for (size_t n : cuts) {
